@@ -1,0 +1,45 @@
+// Verification hooks: construct estimators from, and read back, their raw
+// state. Compiled only with the `verif-hooks` feature.
+
+#[doc(hidden)]
+impl Mean {
+    pub fn __verif_from_parts(avg: f64, n: u64) -> Mean {
+        Mean { avg, n }
+    }
+    pub fn __verif_parts(&self) -> (f64, u64) {
+        (self.avg, self.n)
+    }
+}
+
+#[doc(hidden)]
+impl Variance {
+    pub fn __verif_from_parts(avg: f64, n: u64, sum_2: f64) -> Variance {
+        Variance { avg: Mean { avg, n }, sum_2 }
+    }
+    pub fn __verif_parts(&self) -> (f64, u64, f64) {
+        (self.avg.avg, self.avg.n, self.sum_2)
+    }
+}
+
+#[cfg(any(feature = "std", feature = "libm"))]
+#[doc(hidden)]
+impl Skewness {
+    pub fn __verif_from_parts(avg: f64, n: u64, sum_2: f64, sum_3: f64) -> Skewness {
+        Skewness { avg: Variance::__verif_from_parts(avg, n, sum_2), sum_3 }
+    }
+    pub fn __verif_parts(&self) -> (f64, u64, f64, f64) {
+        (self.avg.avg.avg, self.avg.avg.n, self.avg.sum_2, self.sum_3)
+    }
+}
+
+#[cfg(any(feature = "std", feature = "libm"))]
+#[doc(hidden)]
+impl Kurtosis {
+    pub fn __verif_from_parts(avg: f64, n: u64, sum_2: f64, sum_3: f64, sum_4: f64) -> Kurtosis {
+        Kurtosis { avg: Skewness::__verif_from_parts(avg, n, sum_2, sum_3), sum_4 }
+    }
+    pub fn __verif_parts(&self) -> (f64, u64, f64, f64, f64) {
+        let (avg, n, sum_2, sum_3) = self.avg.__verif_parts();
+        (avg, n, sum_2, sum_3, self.sum_4)
+    }
+}
